@@ -10,7 +10,7 @@ import types
 import z3
 
 from . import extract, seqops
-from .contract import Const, FixedList, Loop, Obj, SeqOf, Spec, _Scalar
+from .contract import Const, FixedList, Loop, Obj, Optional, Root, Same, SeqOf, Spec, _Scalar
 from .core import Explorer, Infeasible, Path, PathEnd, PyRaise
 from .interp import Interp, OldNS
 from .interp_call import Frame
@@ -19,7 +19,7 @@ from .values import (DictCell, ExcV, ObjCell, Opaque, Ref, SeqCell, SeqV, Sym, U
 
 
 # ---------------------------------------------------------------------------------------------- inputs
-def make_symbolic(I: Interp, spec, hint):
+def make_symbolic(I: Interp, spec, hint, root=None, env=None):
     path = I.path
     if isinstance(spec, _Scalar):
         name = "in:" + hint
@@ -59,11 +59,27 @@ def make_symbolic(I: Interp, spec, hint):
         return seq
     if isinstance(spec, Const):
         return I.lift(spec.value)
+    if isinstance(spec, Optional):
+        b = z3.Bool("in:" + hint + ".is_none")
+        path.ex.inputs["in:" + hint + ".is_none"] = {"kind": "bool", "term": b}
+        if I.branch(Sym("bool", b)):
+            return None
+        return make_symbolic(I, spec.inner, hint, root, env)
+    if isinstance(spec, Root):
+        if root is None:
+            raise Unsupported("Root() outside an object spec")
+        return root
+    if isinstance(spec, Same):
+        parts = spec.expr.split(".")
+        v = (env or {})[parts[0]]
+        for a in parts[1:]:
+            v = I.get_attr(v, a)
+        return v
     if isinstance(spec, Obj):
         ref = path.alloc(ObjCell(spec.cls))
         cell = path.cell(ref)
         for f, s in spec.fields.items():
-            cell.attrs[f] = make_symbolic(I, s, f"{hint}.{f}")
+            cell.attrs[f] = make_symbolic(I, s, f"{hint}.{f}", root if root is not None else ref, env)
         return ref
     if isinstance(spec, FixedList):
         items = [make_symbolic(I, s, f"{hint}[{k}]") for k, s in enumerate(spec.items)]
@@ -106,6 +122,8 @@ def make_concrete(spec, hint, model):
         if spec.kind == "tuple":
             return tuple(items)
         return list(items)
+    if isinstance(spec, Optional):
+        return None if model.get("in:" + hint + ".is_none") else make_concrete(spec.inner, hint, model)
     if isinstance(spec, Const):
         return spec.value
     if isinstance(spec, Obj):
